@@ -43,7 +43,8 @@ def plan(tier):
 def trace(draw, tier):
     tps = draw(st.sampled_from([10, 100, 3, 7, 1, 2, 5, 20, 30, 128, 1000, 100000]) | st.integers(1, 100000))
     n = draw(st.integers(1, 12))
-    ks = sorted(draw(st.lists(st.integers(0, 3000), min_size=n, max_size=n)))
+    span = draw(st.sampled_from([3000, 300, 30000, 10 ** 7, 3 * 10 ** 7]))
+    ks = sorted(draw(st.lists(st.integers(0, span), min_size=n, max_size=n)))
     arr = []
     for k in ks:
         style = draw(st.sampled_from(["dec", "mul", "div", "off", "off", "dup", "int", "exp", "third", "dec_below", "dec_below"]))
